@@ -280,10 +280,10 @@ class _Author:
 
 
 class _Commit:
-    def __init__(self, idx, intid, spec):
+    def __init__(self, idx, intid, spec, sha=None):
         self.idx = idx
         self.intid = intid
-        self.hexsha = commit_sha(intid)
+        self.hexsha = sha if sha is not None else commit_sha(intid)
         self.message = spec["m"]
         self.committed_date = spec["t"]
         self.author = _Author()
@@ -326,7 +326,8 @@ class MockRepo:
 
     def load(self, case):
         ids = case.get("ids") or list(range(len(case["commits"])))
-        self.commits = [_Commit(i, ids[i], spec) for i, spec in enumerate(case["commits"])]
+        shas = case_shas(case)
+        self.commits = [_Commit(i, ids[i], spec, shas[i]) for i, spec in enumerate(case["commits"])]
         for c, spec in zip(self.commits, case["commits"]):
             c.parents = [self.commits[p] for p in spec["p"]]
         self.by_sha = {c.hexsha: c for c in self.commits}
@@ -362,6 +363,25 @@ HEX = "0123456789abcdef"
 
 def commit_sha(intid):
     return hashlib.sha1(f"c06-{intid}".encode()).hexdigest()
+
+
+def case_shas(case):
+    """the 40-digit id of commit k: given by the case ("shas": ids with deliberately shared prefixes / suffixes between
+    distinct commits, gen_shas) or derived from the commit's number"""
+    if case.get("shas"):
+        return list(case["shas"])
+    return [commit_sha(i) for i in (case.get("ids") or range(len(case["commits"])))]
+
+
+SHORT = 11          # digits of the abbreviated ids in the printed report (ReportFormatter)
+
+
+def short_classes(case):
+    """canon[k] = the first commit whose id starts with the same SHORT digits as commit k's (the printed report
+    cannot tell the commits of one class apart)"""
+    shas = case_shas(case)
+    first = {}
+    return [first.setdefault(x[:SHORT], k) for k, x in enumerate(shas)]
 
 
 def write_disk(git_dir, disk):
@@ -550,7 +570,7 @@ def ref_semantics(disk):
 def case_layout(rng, case):
     """a layout for the repository state of a report case, or None when the state cannot be written to disk
     (repeated ref / tag names)"""
-    shas = [commit_sha(i) for i in (case.get("ids") or range(len(case["commits"])))]
+    shas = case_shas(case)
     branches = [("refs/remotes/" + n, shas[i]) for n, i in case["refs"]]
     tags = [(tag_str(t), shas[i]) for i, spec in enumerate(case["commits"]) for t in spec.get("tags", [])]
     if len({n for n, _ in branches}) != len(branches) or len({t for t, _ in tags}) != len(tags):
@@ -574,7 +594,7 @@ def relayout(case):
         return case
     import random
     c = dict(case)
-    shas = [commit_sha(i) for i in (case.get("ids") or range(len(case["commits"])))]
+    shas = case_shas(case)
     branches = [("refs/remotes/" + n, shas[i]) for n, i in case["refs"]]
     tags = [(tag_str(t), shas[i]) for i, spec in enumerate(case["commits"]) for t in spec.get("tags", [])]
     seed = case["disk"].get("seed") or 0
@@ -587,7 +607,9 @@ _ANSI = re.compile(r"\x1b\[[0-9;:]*m")
 
 def _parse_printed(text, repo):
     """printed GHistReport -> [[branch name, [[title, [commit idx...]]...]]...]"""
-    by_prefix = {c.hexsha[:11]: c.idx for c in repo.commits}
+    by_prefix = {}
+    for c in repo.commits:
+        by_prefix.setdefault(c.hexsha[:SHORT], c.idx)       # commits whose ids share the printed digits: the first one
     out = []
     for line in _ANSI.sub("", text).split("\n"):
         if not line.strip() or line.startswith("===="):
@@ -775,7 +797,7 @@ def coq_disk(disk):
 def coq_dinfo(case):
     if "disk" not in case:
         return "None"
-    shas = SX.clist(SX.cstr(commit_sha(i)) for i in (case.get("ids") or range(len(case["commits"]))))
+    shas = SX.clist(SX.cstr(x) for x in case_shas(case))
     table = []
     for spec in case["commits"]:
         for t in spec.get("tags", []):
@@ -1156,7 +1178,8 @@ def _oracle_report(case, obs):
     if isinstance(pr, list) and pr and pr[0] == "err":
         out.append(("print-raises", f"printing the report raised {pr[1]}"))
     elif isinstance(pr, list):
-        want = [[name, [c for c in b[4]]] for name, builds in r[1] for b in builds]
+        canon = short_classes(case)
+        want = [[name, [canon[c] if 0 <= c < len(canon) else c for c in b[4]]] for name, builds in r[1] for b in builds]
         got = [[name, cs] for name, builds in pr for _title, cs in builds]
         if want != got:
             out.append(("printed-differs", f"printed report lists {got}, the report data {want}"))
@@ -1230,6 +1253,114 @@ def near_misses(text, rng):
     pre = rng.choice(["", "", "re: ", "subject\n\n"])
     post = rng.choice(["", "", " done", "\nbody"])
     return [pre + x + post for x in out]
+
+
+# ---- commit ids.  A commit IS its 40-digit id: two ids that differ in one digit are two commits, however many digits
+# they share.  Ids derived from small numbers never share more than a few digits, so a table keyed by an abbreviated
+# id (the 7 digits of `git log --oneline`, the 11 digits of the printed report, the first / last 16 or 32 digits, an
+# int() of the leading digits ...) behaves like one keyed by the full id.  [gen_shas] gives the commits of a history ids
+# with deliberately shared prefixes (7..39 digits), shared suffixes, or both, between DISTINCT commits: all commits of
+# the history, or groups chosen by their role (an irrelevant root / old commit and a matching commit, two matching
+# commits, heads, tagged commits, parents and children).
+PREFIX_LENS = [7, 8, 10, 11, 11, 11, 12, 12, 16, 20, 32, 39, 39]
+
+
+def _hex(rng, n):
+    return "".join(rng.choice(HEX) for _ in range(n))
+
+
+def _base_sha(rng):
+    r = rng.random()
+    if r < 0.6:
+        return _hex(rng, 40)
+    if r < 0.7:
+        return "".join(rng.choice("0123456789") for _ in range(40))            # reads as a decimal number
+    if r < 0.8:
+        return ("0" * rng.choice([1, 7, 11, 12, 20]) + _hex(rng, 40))[:40]       # leading zeros
+    if r < 0.9:
+        return (rng.choice(["1e5", "0e0", "00e", "0b1", "0e", "e"]) + "".join(rng.choice("0123456789") for _ in range(40)))[:40]
+    return (rng.choice("0f") * rng.choice([11, 20, 39]) + _hex(rng, 40))[:40]
+
+
+def _near_sha(rng, base, how, L, used):
+    """another id: shares exactly the first L digits ('pre'), the last L digits ('suf'), or the first and the last
+    L' = min(L, 19) digits ('ends') with [base]"""
+    base = base[:40]
+    for attempt in range(4000):
+        if attempt % 100 == 99 and L > 0:
+            L -= 1                       # no free id that shares so many digits: share one less
+        if how == "pre":
+            x = base[:L] + rng.choice([c for c in HEX if c != base[L]]) + _hex(rng, 39 - L)
+        elif how == "suf":
+            k = 39 - L
+            x = _hex(rng, k) + rng.choice([c for c in HEX if c != base[k]]) + base[k + 1:]
+        else:
+            m = min(L, 19)
+            mid = _hex(rng, 40 - 2 * m)
+            x = base[:m] + mid + base[40 - m:]
+        if x not in used and len(x) == 40:
+            return x
+    raise AssertionError("harness: no free id")
+
+
+def gen_shas(rng, case):
+    """ids for the commits of a report case (see above); None entries never remain"""
+    commits, text = case["commits"], case["text"]
+    n = len(commits)
+    reach = reach_sets(commits)
+    match = [text in c["m"] for c in commits]
+    live = [i for i in range(n) if any(match[j] for j in reach[i])]           # matching, or above a matching commit
+    dead = [i for i in range(n) if i not in live]                              # irrelevant with all its ancestry
+    heads = sorted({h for _, h in case["refs"]})
+    tagged = [i for i in range(n) if commits[i].get("tags")]
+    roots = [i for i in range(n) if not commits[i]["p"]]
+    pools = {"live": live, "dead": dead, "match": [i for i in range(n) if match[i]], "head": heads, "tag": tagged,
+             "root": roots, "any": list(range(n))}
+    how = rng.choice(["pre", "pre", "pre", "pre", "suf", "ends"])
+    groups = []
+    if rng.random() < 0.4 or n < 3:
+        groups.append(list(range(n)))
+    else:
+        for _ in range(rng.choice([1, 2, 3, 4])):
+            a, b = rng.choice([("dead", "live"), ("dead", "match"), ("root", "match"), ("live", "dead"), ("match", "match"),
+                               ("head", "any"), ("head", "head"), ("tag", "any"), ("any", "any"), ("dead", "head")])
+            if not pools[a] or not pools[b]:
+                a, b = "any", "any"
+            g = [rng.choice(pools[a]), rng.choice(pools[b])]
+            if rng.random() < 0.3:
+                g.append(rng.randrange(n))
+            taken = {i for gr in groups for i in gr}
+            g = [i for k, i in enumerate(g) if i not in taken and i not in g[:k]]
+            if len(g) >= 2:
+                groups.append(g)
+    shas = [None] * n
+    used = set()
+    for g in groups:
+        if rng.random() < 0.5:
+            rng.shuffle(g)
+        L = rng.choice(PREFIX_LENS) if rng.random() < 0.8 else rng.randrange(7, 40)
+        base = _base_sha(rng)[:40]
+        while base in used:
+            base = _hex(rng, 40)
+        for k, i in enumerate(g):
+            x = base if k == 0 else _near_sha(rng, base, how, L if rng.random() < 0.7 else rng.randrange(L, 40), used)
+            used.add(x)
+            shas[i] = x
+    for i in range(n):
+        if shas[i] is None:
+            x = _hex(rng, 40)
+            while x in used:
+                x = _hex(rng, 40)
+            used.add(x)
+            shas[i] = x
+    assert len(set(shas)) == n and all(_HEX40.match(x) for x in shas)
+    return shas
+
+
+def with_shas(rng, case, p=0.35):
+    if rng.random() < p and case["commits"]:
+        case["shas"] = gen_shas(rng, case)
+    return case
 
 
 def gen_history(rng, n, *, p_merge=0.2, p_root=0.05, p_tag=0.25, p_match=0.35, nbranches=None, spread=None,
@@ -1336,7 +1467,7 @@ def gen_history(rng, n, *, p_merge=0.2, p_root=0.05, p_tag=0.25, p_match=0.35, n
         refs.append(["other/release/0.1", rng.randrange(n)])
     rng.shuffle(refs)
     ids = rng.sample(range(1, 100000), n)
-    return {"k": "report", "remote": remote, "text": text, "refs": refs, "commits": commits, "ids": ids}
+    return with_shas(rng, {"k": "report", "remote": remote, "text": text, "refs": refs, "commits": commits, "ids": ids})
 
 
 def gen_remerge(rng):
@@ -1384,7 +1515,8 @@ def gen_remerge(rng):
         refs.append([f"origin/{nm}", cur])
     rng.shuffle(refs)
     n = len(commits)
-    return {"k": "report", "remote": "origin", "text": text, "refs": refs, "commits": commits, "ids": rng.sample(range(1, 100000), n)}
+    return with_shas(rng, {"k": "report", "remote": "origin", "text": text, "refs": refs, "commits": commits,
+                           "ids": rng.sample(range(1, 100000), n)})
 
 
 def gen_session(rng, n=None):
@@ -1430,6 +1562,12 @@ def gen_session(rng, n=None):
                     spec["tags"] = [["r", build_no, 1, rng.choice([0, 2])]]
                 commits.append(spec)
                 ids.append(max(ids) + rng.randrange(1, 50))
+                if st.get("shas"):
+                    # the pushed commit's id shares digits with the id of a commit the collection has seen before
+                    old = st["shas"]
+                    st["shas"] = old + [_near_sha(rng, rng.choice(old), rng.choice(["pre", "pre", "suf", "ends"]),
+                                                  rng.choice(PREFIX_LENS), set(old))
+                                        if rng.random() < 0.7 else _near_sha(rng, _hex(rng, 40), "pre", 0, set(old))]
                 refs[j][1] = len(commits) - 1
             elif op == "move" and mine:
                 refs[rng.choice(mine)][1] = rng.randrange(len(commits))
@@ -1523,6 +1661,11 @@ def gen_refs_case(rng):
     others = rng.sample([r for r in REMOTES + [remote + "2", remote + "/sub", "zz", remote[:-1] or "o"]
                          if r != remote and not r.endswith("/") and "//" not in r], rng.choice([0, 1, 2]))
     shas = [other() for _ in range(rng.randrange(1, 6))]
+    if rng.random() < 0.35:
+        # distinct commits whose ids share 7..39 leading (or trailing) digits
+        how = rng.choice(["pre", "pre", "suf", "ends"])
+        for j in range(1, len(shas)):
+            shas[j] = _near_sha(rng, shas[0], how, rng.choice(PREFIX_LENS), set(shas))
     branches, seen = [], []
     for r in [remote] * 3 + others:
         for b in rng.sample(BRANCHES, rng.randrange(0, 4)):
@@ -1789,6 +1932,8 @@ def _shrink_plain(case):
         c["commits"] = commits
         c["refs"] = [[nm, h - 1 if h > i else h] for nm, h in refs]
         c["ids"] = [x for k2, x in enumerate(case.get("ids") or range(n)) if k2 != i]
+        if case.get("shas"):
+            c["shas"] = [x for k2, x in enumerate(case["shas"]) if k2 != i]
         yield c
     for i in range(n):
         spec = case["commits"][i]
@@ -1832,7 +1977,12 @@ RULE = ("generated single-repository histories of 1-45 commits: random DAGs with
         "plus 150 cases of the refs layer alone (GitRepo.iter_refs over several prefix sets, _iter_packed_refs, "
         "make_branch_refs_map, make_buildtags_map) of which 40% on deliberately ill-formed packed-refs texts (stray / "
         "repeated / misplaced '^' lines, wrong lengths, one-field lines, foreign comments, repeated refs, blanks); "
-        "plus BranchName sort-item / cmp cases.  Non-trivial = a report with >= 2 builds "
+        "plus BranchName sort-item / cmp cases.  COMMIT IDS: 35% of the histories / remerge cases / sessions (and of the refs "
+        "cases) give DISTINCT commits 40-digit ids that share their first 7..39 digits (emphasis on 7, 8, 10, 11, 12, 16, 20, 32, "
+        "39), their last 7..39 digits, or both ends: all commits of the history, or groups chosen by role (an irrelevant root / "
+        "old commit and a matching one, two matching commits, heads, tagged commits); ids that read as decimal numbers, with "
+        "leading zeros, like 1e5..., 000...; in sessions a pushed commit's id shares digits with an id the collection has "
+        "already seen (the other cases keep sha1-of-a-number ids).  Non-trivial = a report with >= 2 builds "
         "on a history of >= 4 commits (or a cmp of two different names).")
 TRUSTED_BASE = [
     "harness-side mock of git.Repo (commit/iter_refs/remotes, tree / 'VERSION'), same attribute surface as tests/mock_git.py; "
@@ -1846,6 +1996,8 @@ TRUSTED_BASE = [
     "tag it renders as build_<n>_release_<M>_<m>_success / build_<n>_master_success + VERSION file; the regexes of "
     "ProjectRepo and int()/str.split() of CPython are trusted (ASCII branch names only)",
     "list.sort is a stable sort that only calls __lt__",
+    "commit ids are lower-case 40-digit hex strings, pairwise different inside one repository; the printed report shows 11 "
+    "digits, so the printed-vs-data comparison identifies commits whose ids share their first 11 digits",
     "gen/C06_Consts.v: cut-off period, master prefix/names/label, release prefix, separator characters, int-vs-str "
     "constants of the comparator, fake build numbers, fake iid base and the shape of the not-merged filter are read "
     "from ak/ghist.py by harness/props/c06.py:gen_consts (ast, fail-closed)",
@@ -1891,7 +2043,9 @@ LEVEL_TEXT = ("partial (model-level proof + correspondence).  THEOREMS, for ever
               "packed_refs_parse_spec (the coded loop = the entry-wise reading of the lines, or the error of the first refused line), "
               "ref_line_yields_its_pair, peeled_line_is_local (a '^' line changes only the ref it follows), "
               "peeled_lines_never_change_branches, ref_line_text / peeled_line_text (text of a line -> its class), "
-              "iter_refs_one_prefix, branch_head_rule (loose file wins, else the LAST packed entry), branch_heads_from_ref_files.  "
+              "iter_refs_one_prefix, branch_head_rule (loose file wins, else the LAST packed entry), branch_heads_from_ref_files; "
+              "commit_of_full_id, commit_found_by_its_id, different_ids_different_commits (the hexsha -> commit step of the model "
+              "compares whole ids: ids that differ in one digit denote different commits).  "
               "ONLY TESTED (correspondence "
               "model vs implementation + oracle on ~750 generated histories per quick run): that the hand model is the code; labels "
               "of tagged builds, order of builds / commits inside a branch, the printed report, tag parsing; that a report made by a "
